@@ -141,6 +141,15 @@ where
         return;
     }
     rep.held();
+    // (for the state-leak phase at the end)
+    let mut w2 = w.clone();
+    if len >= 4 {
+        w2[1..len - 1].reverse();
+    }
+    let probs2: Vec<F> = {
+        let c = Categorical::<F>::with_rng(w2.clone(), SmallRng::seed_from_u64(3));
+        c.probs.clone()
+    };
     // injected variates
     let steps = F::STEPS;
     let mut ks: Vec<u64> = vec![0, 1, steps - 1, steps - 2, steps / 2];
@@ -215,14 +224,10 @@ where
     // length with the same first and last weight but the interior reversed, built on this thread
     // right after the first one was used; (b) the public `probs` of an existing object edited in place
     if len >= 4 {
-        let mut w2 = w.clone();
-        w2[1..len - 1].reverse();
+        // (w2 and probs2 were allocated before the loop above, so that the objects built below get
+        // their buffers where that loop's objects had theirs)
         if !bits_eq(&w2, &w) {
             for edit_in_place in [false, true] {
-                let probs2: Vec<F> = {
-                    let c = Categorical::<F>::with_rng(w2.clone(), SmallRng::seed_from_u64(3));
-                    c.probs.clone()
-                };
                 // inverse cdf by definition, in F arithmetic
                 let expect = |u: F| -> (usize, bool) {
                     let mut cum = F::zero();
